@@ -43,6 +43,19 @@ fn check_set(stats: &mut Stats, rng: &mut Rng, set: &Vec<P>, class: &str, n_unif
     }
 }
 
+/// the cubic's own double point in closed form: B(t1) = B(t2), t1 != t2, gives s = t1 + t2 and p = t1 t2 from two linear equations
+/// (the parameters may lie outside [0,1])
+fn double_point(w: &[Coord2; 4]) -> Option<(f64, f64)> {
+    let (ca, cb, cc) = (w[3] - w[0] + (w[1] - w[2]) * 3.0, (w[0] - w[1] * 2.0 + w[2]) * 3.0, (w[1] - w[0]) * 3.0);
+    let ab = cross(ca, cb);
+    if ab.abs() < 1e-9 { return None; }
+    let sum = -cross(ca, cc) / ab;
+    let prod = sum * sum - cross(cb, cc) / ab;
+    let disc = sum * sum - 4.0 * prod;
+    if !(disc > 0.0) { return None; }
+    Some(((sum - disc.sqrt()) * 0.5, (sum + disc.sqrt()) * 0.5))
+}
+
 /// a quadrilateral frame whose first edge is a cubic that crosses itself (a curl); `two`: the cubic is cut in two near its middle.
 /// Returns the path and the curl cubic
 fn curl_frame(rng: &mut Rng, two: bool) -> (P, [Coord2; 4]) {
@@ -55,12 +68,16 @@ fn curl_frame(rng: &mut Rng, two: bool) -> (P, [Coord2; 4]) {
     let (p, q) = (v[0], v[1]);
     let d = q - p;
     let out = { let m = (p + q) * 0.5 - c; let l = (m.0 * m.0 + m.1 * m.1).sqrt(); Coord2(m.0 / l, m.1 / l) };
+    // two in three curl INTO the body: the loop then has winding number 2 (non-zero rule: inside; even-odd rule: a hole)
+    let out = if rng.i(3) == 0 { out } else { out * -0.7 };
     let k = rng.r(0.9, 1.6);
     let (c1, c2) = (p + d * k + out * (r * rng.r(0.3, 0.8)), q - d * k + out * (r * rng.r(0.3, 0.8)));
     let mut sections = vec![];
     if two {
         let whole = Curve::from_points(p, (c1, c2), q);
-        let (l, rr): (Curve<Coord2>, Curve<Coord2>) = whole.subdivide(rng.r(0.35, 0.65));
+        // cut between the two parameters of the cubic's double point (when it has one inside the curve), so that the two halves cross
+        let cut = match double_point(&[p, c1, c2, q]) { Some((u1, u2)) if u1 > 0.0 && u2 < 1.0 => u1 + (u2 - u1) * rng.r(0.3, 0.7), _ => rng.r(0.35, 0.65) };
+        let (l, rr): (Curve<Coord2>, Curve<Coord2>) = whole.subdivide(cut);
         sections.push((l.control_points().0, l.control_points().1, l.end_point()));
         sections.push((rr.control_points().0, rr.control_points().1, q));
     } else {
@@ -143,15 +160,7 @@ pub fn search(seed: u64, n: u64) {
         let (path, curl) = curl_frame(&mut rng_sip, false);
         stats.count("curls_screened");
         let c = flo_curves::bezier::Curve::from_points(curl[0], (curl[1], curl[2]), curl[3]);
-        // the cubic's own double point in closed form: B(t1) = B(t2), t1 != t2, gives s = t1 + t2 and p = t1 t2 from two linear equations
-        let (ca, cb, cc) = (curl[3] - curl[0] + (curl[1] - curl[2]) * 3.0, (curl[0] - curl[1] * 2.0 + curl[2]) * 3.0, (curl[1] - curl[0]) * 3.0);
-        let ab = cross(ca, cb);
-        if ab.abs() < 1e-9 { continue; }
-        let sum = -cross(ca, cc) / ab;
-        let prod = sum * sum - cross(cb, cc) / ab;
-        let disc = sum * sum - 4.0 * prod;
-        if !(disc > 0.0) { stats.count("curls_screened.no_double_point"); continue; }
-        let (u1, u2) = ((sum - disc.sqrt()) * 0.5, (sum + disc.sqrt()) * 0.5);
+        let (u1, u2) = match double_point(&curl) { Some(u) => u, None => { stats.count("curls_screened.no_double_point"); continue; } };
         if !(u1 > 0.02 && u2 < 0.98 && u2 - u1 > 0.05) { stats.count("curls_screened.double_point_outside_or_near_ends"); continue; }
         stats.count("curls_screened.with_double_point");
         let dp = c.point_at_pos(u1);
@@ -163,7 +172,7 @@ pub fn search(seed: u64, n: u64) {
         if !looks_wrong { continue; }
         stats.count("curls_screened.self_intersection_looks_wrong");
         suspicious += 1;
-        if suspicious > 12 { continue; }
+        if suspicious > 40 { continue; }
         stats.case(&format!("screened curl {:?}", path), true);
         stats.count("input.curl_edge_crosses_itself");
         check_set(&mut stats, &mut rng_sip, &vec![path], "curl_edge_crosses_itself", 200, 200);
